@@ -2060,6 +2060,18 @@ func c02Judge(c *Ctx, cs *c02Case, runs []c02Run, hits map[string]int64, pend *[
 				hits["result:panic-namespace-after-option-change"]++
 				continue
 			}
+			if run.tr.DupToggled && strings.Contains(run.stack, "copyQuotedBuffer") && strings.Contains(run.stack, "wrapSyntacticError") {
+				// a DIFFERENT defect (D10): a string token at a name position is rejected with errInvalidNamespace by
+				// Tokens.appendString() AFTER Names.ReplaceLastQuotedOffset(pos) was already executed (the earlier isValidNamespace
+				// test is skipped while AllowDuplicateNames is on); the offset points into bytes that were never committed to
+				// e.Buf, and computing the error's JSON pointer slices out of range.  Needs a namespace invalidated by a failed
+				// strict nested call and duplicates allowed again afterwards, i.e. a per-call toggle of AllowDuplicateNames.
+				d := c02Describe(cs, run)
+				d["panic"] = fmt.Sprint(run.pan)
+				c.Violate("panic-name-offset-on-rejected-token", run.ep, run.out, d)
+				hits["result:panic-name-offset-on-rejected-token"]++
+				continue
+			}
 			if run.encDup && !run.callDup && strings.Contains(run.stack, "objectNamespaceStack.Last") {
 				// the enclosing object was opened while the Encoder allowed duplicate names (no namespace pushed); the call
 				// switched AllowDuplicateNames off at a value position (permitted) and user code then wrote a NAME into it
